@@ -27,7 +27,7 @@ pub fn c11_def() -> PropDef {
             "peers acknowledge immediately (acknowledgement patterns are C12's domain)",
         ],
         parts: vec![
-            Part { name: "batching", cfg_len: CFG_LEN, tape_max: 200, quick: 4_000, thorough: 120_000, max_shrink_iters: 300, run: c11_run },
+            Part { name: "batching", cfg_len: CFG_LEN, tape_max: 200, quick: 20_000, thorough: 500_000, max_shrink_iters: 300, run: c11_run },
         ],
     }
 }
@@ -41,7 +41,7 @@ pub fn c12_def() -> PropDef {
             "connections are not cut in this part (retransmission is C14's domain), so FIFO pairing per connection is exact",
         ],
         parts: vec![
-            Part { name: "quorum-wait", cfg_len: CFG_LEN, tape_max: 160, quick: 6_000, thorough: 200_000, max_shrink_iters: 300, run: c12_run },
+            Part { name: "quorum-wait", cfg_len: CFG_LEN, tape_max: 160, quick: 30_000, thorough: 800_000, max_shrink_iters: 300, run: c12_run },
         ],
     }
 }
